@@ -307,14 +307,14 @@ def r5_counts(ctx):
             while isinstance(v, ast.Call) and callee_last(v) == "lit" and v.args:
                 v = v.args[0]
             v = resolve_local(f.node, v)
+            from ..util import decision_function
             if isinstance(v, ast.Name):
-                leaves = assignment_leaves(f.node, v.id, loopvars)
-                if not leaves:
+                names_, table = decision_function(f.node, v.id, loopvars)
+                if not table or all(val is None for val in table.values()):
                     raise AnalysisError(f"{q}: `{v.id}` flows into the 'check' field but is never assigned")
-                chains.add(tuple(sorted((tuple(sorted(c)), val) for c, val in leaves)))
             else:
-                leaves = set()
-                chains.add(tuple(sorted((tuple(sorted(c)), val) for c, val in _expr_leaves(v, loopvars))))
+                names_, table = decision_function(f.node, None, loopvars, value_expr=v)
+            chains.add((names_, tuple(sorted(table.items()))))
         if not chains:
             raise AnalysisError(f"{q}: no value flows into the 'check' field of the failure cases")
         forms[q] = chains
